@@ -63,6 +63,18 @@ def is_stabilization_of(repo, name, dev_branch):
             branch.minor == dev_branch.minor)
 
 
+def already_archived(repo, archive_tag, branch):
+    """Does the archive tag exist and point at the tip of `branch`?"""
+    try:
+        tagged = repo.cmd('git rev-parse --verify --quiet %s',
+                          'refs/tags/%s^{commit}' % archive_tag).strip()
+        tip = repo.cmd('git rev-parse --verify --quiet %s',
+                       'refs/remotes/origin/%s^{commit}' % branch.name).strip()
+    except CommandError:
+        return False
+    return bool(tagged) and tagged == tip
+
+
 @handler(DeleteBranchJob)
 def delete_branch(job: DeleteBranchJob):
     """Delete a destination branch."""
@@ -86,8 +98,17 @@ def delete_branch(job: DeleteBranchJob):
     if job.settings.branch not in repo.remote_branches:
         raise exceptions.NothingToDo()
 
+    archive_tag = del_branch.version
+    if isinstance(del_branch, HotfixBranch):
+        archive_tag = archive_tag + '.archived_hotfix_branch'
+
+    # A previous run of this job may have pushed the archive tag and died (or
+    # been refused) before deleting the branch: when the tag already points at
+    # the tip of the branch there is nothing left to archive, only to delete.
+    resuming = already_archived(repo, archive_tag, del_branch)
+
     # do not allow deleting a branch if the archive tag is already there
-    if not isinstance(del_branch, HotfixBranch) and \
+    if not isinstance(del_branch, HotfixBranch) and not resuming and \
        del_branch.version in repo.cmd('git tag').split('\n')[:-1]:
         raise exceptions.JobFailure('Cannot delete branch %r because there is '
                                     'already an archive tag %r in the '
@@ -117,16 +138,14 @@ def delete_branch(job: DeleteBranchJob):
         del_queue = QueueBranch(repo, 'q/%s' % del_branch.version)
         do_delete(del_queue)
 
-    archive_tag = del_branch.version
-    if isinstance(del_branch, HotfixBranch):
-        archive_tag = archive_tag + '.archived_hotfix_branch'
-    try:
-        del_branch.checkout()
-        repo.cmd('git tag %s' % archive_tag)
-        repo.cmd('git push origin %s' % archive_tag)
-    except CommandError:
-        raise exceptions.JobFailure('Unable to push new tag, '
-                                    'keep pushing.')
+    if not resuming:
+        try:
+            del_branch.checkout()
+            repo.cmd('git tag %s' % archive_tag)
+            repo.cmd('git push origin %s' % archive_tag)
+        except CommandError:
+            raise exceptions.JobFailure('Unable to push new tag, '
+                                        'keep pushing.')
 
     do_delete(del_branch, force=True)
 
